@@ -13,7 +13,7 @@ Statements:
 import datetime
 import math
 
-from .library import LIBRARY_NAMES, MODELS, NEEDS_CALL, UNSPEC, Fail
+from .library import LIBRARY_NAMES, MODELS, NEEDS_CALL, UNSPEC, Fail, UnspecifiedResult
 from .values import RefFunction, is_number, norm_dt, ref_compare, ref_string, truthy
 
 
@@ -291,6 +291,8 @@ class Ref:
                 result = model(args)
         except Fail as f:
             return f.value
+        except UnspecifiedResult as e:
+            raise Indeterminate(str(e)) from e
         if result is UNSPEC:
             raise Indeterminate('unspecified result of ' + name)
         return result
